@@ -40,9 +40,35 @@ def _simple_helper(h):
             return False
         if isinstance(x, FUNC + (ast.Lambda, ast.ClassDef)) and x is not h:
             return False
-        if isinstance(x, (ast.For, ast.While, ast.Try, ast.With)) and _has_return(x):
+        if isinstance(x, (ast.Try, ast.With)) and _has_return(x):
+            return False
+        if isinstance(x, (ast.For, ast.While)) and _has_return(x) and not _returning_loop_ok(x, h):
             return False
     return True
+
+
+def _own(loop):
+    """nodes of the loop body that belong to this loop level (inner loops are not descended)"""
+    todo = list(loop.body)
+    while todo:
+        n = todo.pop()
+        yield n
+        if isinstance(n, (ast.For, ast.While, ast.AsyncFor)):
+            continue
+        todo.extend(ast.iter_child_nodes(n))
+
+
+def _returning_loop_ok(loop, h):
+    """A loop with `return` inside can be expanded in place when `return e` can become `target = e; break` and the statements
+    after the loop can move into the loop's `else:` - i.e. the loop is a top-level statement of the helper, has no `break` of
+    its own and no `else`, and its returns are not buried in inner loops / try / with."""
+    if not any(loop is x for x in h.body) or loop.orelse:
+        return False
+    own = list(_own(loop))
+    if any(isinstance(n, ast.Break) for n in own):
+        return False
+    inner_ret = [n for n in ast.walk(loop) if isinstance(n, ast.Return)]
+    return all(any(r is n for n in own) for r in inner_ret) and not any(isinstance(n, (ast.Try, ast.With)) and _has_return(n) for n in own)
 
 
 def _structured(stmts, on_return):
@@ -53,6 +79,19 @@ def _structured(stmts, on_return):
         if isinstance(st, ast.Return):
             out.extend(on_return(st))
             return out, True
+        if isinstance(st, (ast.For, ast.While)) and _has_return(st):
+            # `return e` inside the loop -> <on_return(e)>; break      the rest of the helper -> the loop's else clause
+            def brk(r):
+                out_ = on_return(r)
+                return out_ if out_ and isinstance(out_[-1], ast.Return) else out_ + [ast.copy_location(ast.Break(), r)]
+            body, _ = _structured_loop_body(st.body, brk)
+            tail, t_ret = _structured(rest, on_return)
+            new = _clone(st)
+            new.body = body
+            new.orelse = tail
+            out.append(new)
+            forever = isinstance(st, ast.While) and isinstance(st.test, ast.Constant) and bool(st.test.value)
+            return out, t_ret or forever
         if isinstance(st, ast.If) and _has_return(st):
             body, b_ret = _structured(st.body, on_return)
             orelse, o_ret = _structured(st.orelse, on_return)
@@ -98,6 +137,23 @@ def _always_returns(stmts):
         if isinstance(st, ast.If) and st.orelse and _always_returns(st.body) and _always_returns(st.orelse):
             return True
     return False
+
+
+def _structured_loop_body(stmts, brk):
+    """inside a returning loop: every `return e` becomes brk(e); nothing else moves"""
+    out = []
+    for st in stmts:
+        if isinstance(st, ast.Return):
+            out.extend(brk(st))
+            return out, True
+        if isinstance(st, ast.If) and _has_return(st):
+            new = _clone(st)
+            new.body, _ = _structured_loop_body(st.body, brk)
+            new.orelse, _ = _structured_loop_body(st.orelse, brk)
+            out.append(new)
+            continue
+        out.append(st)
+    return out, False
 
 
 class _Rename(ast.NodeTransformer):
@@ -212,9 +268,10 @@ def _expand(call, target_kind, target, helper, is_method, taken=frozenset()):
     return pre + new
 
 
-def inlined(module, func, depth=2, tests=False, exclude=()):
+def inlined(module, func, depth=2, tests=False, exclude=(), nested=False):
     """module: sa.core.Module.  Returns (new function node, names of helpers that were inlined).
-    tests=True also expands predicate helpers called as the whole test of an `if`; helpers named in `exclude` are kept as calls."""
+    tests=True also expands predicate helpers called as the whole test of an `if`; helpers named in `exclude` are kept as calls;
+    nested=True also expands a helper call buried inside a statement's expression (evaluated into a fresh local first)."""
     cls = getattr(func, "_parent", None)
     while cls is not None and not isinstance(cls, ast.ClassDef):
         cls = getattr(cls, "_parent", None)
@@ -264,6 +321,50 @@ def inlined(module, func, depth=2, tests=False, exclude=()):
                 if rep is not None:
                     out.extend(rep)
                     continue
+                if rep is None and nested:
+                    # one helper call buried in the statement's expression (`acc.update(self._h(x))`, `if self._h(x) > 0:`):
+                    # evaluate it into a fresh local first, when nothing else in the expression can have an effect
+                    root = st.value if isinstance(st, (ast.Expr, ast.Assign, ast.Return)) and st.value is not None else st.test if isinstance(st, ast.If) else None
+                    if root is not None:
+                        found = [(c_, resolve(c_)) for c_ in ast.walk(root) if isinstance(c_, ast.Call)]
+                        found = [(c_, r_) for c_, r_ in found if r_[0] is not None]
+                        if len(found) == 1 and found[0][0] is not root or (len(found) == 1 and isinstance(st, ast.If)):
+                            hc, (h, is_m) = found[0]
+                            chain = set()
+                            def mark(n, acc):
+                                if n is hc:
+                                    chain.update(id(x) for x in acc)
+                                    return True
+                                return any(mark(c2, acc + [n]) for c2 in ast.iter_child_nodes(n))
+                            mark(root, [])
+                            inside = {id(x) for x in ast.walk(hc)}
+                            pure = True
+                            for n in ast.walk(root):
+                                if id(n) in inside:
+                                    continue
+                                if id(n) in chain:
+                                    if not isinstance(n, (ast.Call, ast.UnaryOp, ast.Compare, ast.BinOp, ast.keyword)):
+                                        pure = False
+                                elif isinstance(n, (ast.Call, ast.Await, ast.Yield, ast.YieldFrom, ast.NamedExpr, ast.Lambda, ast.ListComp, ast.SetComp, ast.DictComp, ast.GeneratorExp, ast.IfExp, ast.BoolOp)):
+                                    pure = False
+                            if pure:
+                                _COUNTER[0] += 1
+                                tmp = f"__v{_COUNTER[0]}"
+                                pre = _expand(hc, "assign", [ast.Name(id=tmp, ctx=ast.Store())], h, is_m, taken=_names(new))
+                                if pre is not None:
+                                    used.append(h.name)
+                                    changed[0] = True
+
+                                    class _Sub(ast.NodeTransformer):
+                                        def visit_Call(self, n):
+                                            if n is hc:
+                                                return ast.copy_location(ast.Name(id=tmp, ctx=ast.Load()), n)
+                                            return self.generic_visit(n)
+                                    if isinstance(st, ast.If):
+                                        st.test = _Sub().visit(st.test)
+                                    else:
+                                        st.value = _Sub().visit(st.value)
+                                    out.extend(pre)
                 if tests and isinstance(st, ast.If):
                     # `if self._pred(x):` / `if not self._pred(x):` - the predicate's body decides a fresh local first
                     t = st.test
